@@ -378,4 +378,219 @@ example :
     (srcMut H0 (run H0 init demo) 5 2).length = 1 ∧ (srcMut H0 (run H0 init demo) 7 0).length = 1 := by
   decide +kernel
 
+/-! ## Source tie of the BIT-MOVING loads and stores, and one theorem over the whole regenerated alphabet (session 5, heapsrc2)
+
+`Builder.store_bits / store_cell / store_slice / store_uint` and `Slice.preload_bits / load_bits / skip_bits / preload_uint / load_uint`
+are regenerated from boc/builder.py / boc/slice.py as heap transformers too: which container is extended or shortened IN PLACE, which
+array is NEW, that `store_cell` / `store_slice` append the ELEMENTS of the source list (and never keep the source's containers). -/
+
+/-- the non-receiver arguments a source-level call may carry: an object, a length / size, an int, a literal bit string -/
+structure SrcArgs where
+  arg : Nat
+  n : Nat
+  v : Int
+  bs : Bits
+
+open TonVerif.Generated.HeapSrc TonVerif.Proofs.SrcHeap in
+/-- the regenerated bit-moving methods applicable to `self` with arguments `a`, as transitions, each with the model operation it is
+proved equal to.  `store_uint` whose `int2ba` raises and `load_uint(0)` (`ba2int` of nothing raises) are the failing transition
+(`observe` of a non-cell: heap unchanged, `err`).  `store_slice` is listed for slices with `ref_offset ≤ len(refs)` (true of every
+slice the library produces: `load_ref` raises at the end; not carried as an invariant here). -/
+def srcBits (H : Bytes → Bytes) (σ : State) (self : Nat) (a : SrcArgs) : List (Op × (State × Out)) :=
+  (if σ.has self .builder then
+    [(Op.storeBits self a.bs, Py.Heap.resultUnit σ (Builder_store_bits H σ self a.bs)),
+     ((match Py.Heap.int2baU? a.v a.n with | some e => Op.storeBits self e | none => Op.observe self),
+        Py.Heap.resultUnit σ (Builder_store_uint H σ self a.v a.n))] ++
+    (if σ.has a.arg .ubits then [(Op.storeFrom self a.arg, Py.Heap.resultUnit σ (Builder_store_bits H σ self (σ.bitsOf a.arg)))] else []) ++
+    (if σ.has a.arg .cell then [(Op.storeFrom self a.arg, Py.Heap.resultUnit σ (Builder_store_cell H σ self a.arg))] else []) ++
+    (if σ.has a.arg .slice && decide ((σ.obj a.arg).off ≤ (σ.refBuf (σ.obj a.arg).refsId).length) then
+      [(Op.storeFrom self a.arg, Py.Heap.resultUnit σ (Builder_store_slice H σ self a.arg))] else [])
+   else []) ++
+  (if σ.has self .slice then
+    [(Op.peekBits self a.n, Py.Heap.resultBits σ (Slice_preload_bits H σ self a.n)),
+     (Op.dropBits self a.n true, Py.Heap.resultBits σ (Slice_load_bits H σ self a.n)),
+     (Op.dropBits self a.n false, Py.Heap.resultDrop σ ((σ.bitsOf self).take a.n) (Slice_skip_bits H σ self a.n)),
+     ((if a.n = 0 then Op.observe self else Op.dropBits self a.n false),
+        Py.Heap.resultDrop σ ((σ.bitsOf self).take a.n) (Slice_load_uint H σ self a.n))]
+   else [])
+
+open TonVerif.Generated.HeapSrc TonVerif.Proofs.SrcHeap in
+/-- REGENERATED BIT-MOVING LOAD / STORE = MODEL STEP, on every heap satisfying the invariant (so: after every history):
+`store_bits` / `store_uint` = `storeBits` (the builder's OWN array extended in place, overflow checked first, the argument only read);
+`store_cell` / `store_slice` / `store_bits(array)` = `storeFrom` (own array and own list extended by the source's remaining bits and the
+ELEMENTS of its remaining references - the source's containers are not kept); `preload_bits` = `peekBits` and `load_bits` =
+`dropBits · true` (the result is a NEW array); `skip_bits` / `load_uint` = `dropBits · false` (only the slice's OWN array shrinks, underflow
+checked first). -/
+theorem c08_src_bits_step (H : Bytes → Bytes) (σ : State) (h : Inv H σ) (self : Nat) (a : SrcArgs) :
+    ∀ r ∈ srcBits H σ self a, r.2 = step H σ r.1 := by
+  intro r hr
+  unfold srcBits at hr
+  rcases List.mem_append.1 hr with h1 | h1
+  · by_cases hb : σ.has self .builder = true
+    · have hnc : σ.has self .cell = false := by
+        have := (has_iff.1 hb).2; simp [State.has, this]
+      simp only [hb, if_true] at h1
+      rcases List.mem_append.1 h1 with h2 | h2
+      · rcases List.mem_append.1 h2 with h3 | h3
+        · rcases List.mem_append.1 h3 with h4 | h4
+          · simp only [List.mem_cons, List.not_mem_nil, or_false] at h4
+            rcases h4 with rfl | rfl
+            · exact Builder_store_bits_eq H σ self a.bs hb
+            · have := Builder_store_uint_eq H σ self a.v a.n hb
+              cases he : Py.Heap.int2baU? a.v a.n with
+              | none => simp only [he] at this ⊢; rw [this]; simp [step, hnc]
+              | some e => simp only [he] at this ⊢; exact this
+          · by_cases hu : σ.has a.arg .ubits = true
+            · simp only [hu, if_true, List.mem_cons, List.not_mem_nil, or_false] at h4
+              subst h4; exact Builder_store_bits_array_eq H σ self a.arg hb hu
+            · simp [hu] at h4
+        · by_cases hc : σ.has a.arg .cell = true
+          · simp only [hc, if_true, List.mem_cons, List.not_mem_nil, or_false] at h3
+            subst h3; exact Builder_store_cell_eq H σ h.wf self a.arg hb hc
+          · simp [hc] at h3
+      · by_cases hs : (σ.has a.arg .slice && decide ((σ.obj a.arg).off ≤ (σ.refBuf (σ.obj a.arg).refsId).length)) = true
+        · simp only [hs, if_true, List.mem_cons, List.not_mem_nil, or_false] at h2
+          subst h2
+          simp only [Bool.and_eq_true, decide_eq_true_eq] at hs
+          obtain ⟨hbi, hbt⟩ := has_iff.1 hb
+          obtain ⟨hsi, hst⟩ := has_iff.1 hs.1
+          have hne : self ≠ a.arg := by intro e; rw [e, hst] at hbt; cases hbt
+          exact Builder_store_slice_eq H σ h.wf self a.arg hb hs.1
+            (h.sep.sepR self a.arg hbi hsi hne (by simp [hbt, Tag.owner]) (by simp [hst, Tag.hasRefs])) hs.2
+        · simp [hs] at h2
+    · simp [hb] at h1
+  · by_cases hs : σ.has self .slice = true
+    · have hnc : σ.has self .cell = false := by
+        have := (has_iff.1 hs).2; simp [State.has, this]
+      simp only [hs, if_true, List.mem_cons, List.not_mem_nil, or_false] at h1
+      rcases h1 with rfl | rfl | rfl | rfl
+      · exact Slice_preload_bits_eq H σ self a.n hs
+      · exact Slice_load_bits_eq H σ h.wf self a.n hs
+      · exact Slice_skip_bits_eq H σ self a.n hs
+      · by_cases hn : a.n = 0
+        · simp [hn, Slice_load_uint_zero, Py.Heap.resultDrop, step, hnc]
+        · simp only [hn, if_false]
+          exact (Slice_load_uint_eq H σ self a.n (by omega) hs).1
+    · simp [hs] at h1
+
+/-- EVERY regenerated call, as a transition tagged with the model operation it equals: the eleven copy / derive methods, `store_ref`,
+`load_ref`, and the bit-moving loads / stores. -/
+def srcCalls (H : Bytes → Bytes) (σ : State) (self : Nat) (a : SrcArgs) : List (Op × (State × Out)) :=
+  (srcDerive H σ self).map (fun r => (Op.derive self r.1, r.2)) ++ srcMut H σ self a.arg ++ srcBits H σ self a
+
+/-- every regenerated call is the model step it is tagged with -/
+theorem c08_src_calls_step (H : Bytes → Bytes) (σ : State) (h : Inv H σ) (self : Nat) (a : SrcArgs) :
+    ∀ r ∈ srcCalls H σ self a, r.2 = step H σ r.1 := by
+  intro r hr
+  unfold srcCalls at hr
+  rcases List.mem_append.1 hr with h1 | h1
+  · rcases List.mem_append.1 h1 with h2 | h2
+    · obtain ⟨q, hq, rfl⟩ := List.mem_map.1 h2
+      exact c08_src_step H σ h.wf self q hq
+    · exact (c08_src_separation_mut H σ h self a.arg r h2).1
+  · exact c08_src_bits_step H σ h self a r h1
+
+/-- a history over the WHOLE op alphabet: regenerated source calls (any of `srcCalls`, any receiver, any arguments) interleaved with
+the transitions that are still hand model (`Cell(bits, refs)`, the cells of `Boc.deserialize`, `hash` / `to_boc`, the caller creating
+arrays and lists) -/
+inductive SrcRun (H : Bytes → Bytes) : State → State → Prop where
+  | done (σ : State) : SrcRun H σ σ
+  | src (σ : State) (self : Nat) (a : SrcArgs) (r : Op × (State × Out)) (σ' : State) :
+      r ∈ srcCalls H σ self a → SrcRun H r.2.1 σ' → SrcRun H σ σ'
+  | model (σ : State) (op : Op) (σ' : State) : SrcRun H (step H σ op).1 σ' → SrcRun H σ σ'
+
+/-- SEPARATION and IMMUTABILITY along every history over the whole alphabet of regenerated calls.  From any heap satisfying the
+invariant (e.g. the empty heap), after any sequence of regenerated copy / derive / load / store calls and hand-model transitions:
+`Sep ∧ WF ∧ Coh` holds again - no slice or builder shares a container with anything, in particular a builder filled by `store_cell` /
+`store_slice` does not point into the source cell, an array returned by `load_bits` is not the slice's - and every cell of the first
+heap is exactly as it was: record, cached hashes, content of its bit container and of its list. -/
+theorem c08_src_history (H : Bytes → Bytes) (σ σ' : State) (h : Inv H σ) (r : SrcRun H σ σ') :
+    Inv H σ' ∧ ∀ i, i < σ.nObj → (σ.obj i).tag = .cell → cellObs σ' i = cellObs σ i := by
+  have key : ∀ (σ : State) (op : Op), Inv H σ → ∀ σ', (Inv H (step H σ op).1 →
+      (Inv H σ' ∧ ∀ i, i < (step H σ op).1.nObj → ((step H σ op).1.obj i).tag = .cell → cellObs σ' i = cellObs (step H σ op).1 i)) →
+      Inv H σ' ∧ ∀ i, i < σ.nObj → (σ.obj i).tag = .cell → cellObs σ' i = cellObs σ i := by
+    intro σ op h σ' ih
+    have h1 := inv_step (H := H) h op
+    obtain ⟨a, b⟩ := ih h1
+    refine ⟨a, fun i hi ht => ?_⟩
+    have f := frame_step H σ op
+    have e := cell_frame h f i hi ht
+    have ht' : ((step H σ op).1.obj i).tag = .cell := by
+      have := congrArg Prod.fst e; simp only [cellObs] at this; rw [this]; exact ht
+    exact (b i (Nat.lt_of_lt_of_le hi f.nObj) ht').trans e
+  induction r with
+  | done σ => exact ⟨h, fun _ _ _ => rfl⟩
+  | src σ self a r σ' hr _ ih =>
+    have e := c08_src_calls_step H σ h self a r hr
+    rw [e] at ih
+    exact key σ r.1 h σ' ih
+  | model σ op σ' _ ih => exact key σ op h σ' ih
+
+/-- from the empty heap -/
+theorem c08_src_history_init (H : Bytes → Bytes) (σ' : State) (r : SrcRun H init σ') : Inv H σ' :=
+  (c08_src_history H init σ' (inv_init H) r).1
+
+open TonVerif.Generated.HeapSrc in
+/-- non-vacuity on the `demo` heap (builder 5, cells 2 / 3 / 6 / 8, slices 4 / 7): the regenerated `store_cell` of builder 5 with cell 2
+raises nothing it should not - it returns the builder, whose two containers are still its own and differ from the cell's, its array ends
+with the cell's bits and no container was allocated; `load_bits(2)` of slice 4 returns a container that did not exist before and is not
+the slice's; `skip_bits(9)` raises; the alphabet is non-empty for a builder and for a slice, and a two-call `SrcRun` exists. -/
+example :
+    (Builder_store_cell H0 (run H0 init demo) 5 6).map (fun r => (r.2, (r.1.obj 5).bitsId == ((run H0 init demo).obj 5).bitsId,
+        (r.1.obj 5).bitsId == (r.1.obj 6).bitsId, (r.1.obj 5).refsId == (r.1.obj 6).refsId, r.1.nBit == (run H0 init demo).nBit))
+      = some (5, true, false, false, true) ∧
+    (Slice_load_bits H0 (run H0 init demo) 4 2).map (fun r => (r.2 == (run H0 init demo).nBit, r.2 == (r.1.obj 4).bitsId, r.1.bitBuf r.2,
+        r.1.bitsOf 4)) = some (true, false, [true, true], [false]) ∧
+    (Slice_skip_bits H0 (run H0 init demo) 4 9).isNone = true ∧
+    (srcBits H0 (run H0 init demo) 5 ⟨6, 3, 5, [true]⟩).length = 3 ∧ (srcBits H0 (run H0 init demo) 4 ⟨0, 2, 0, []⟩).length = 4 ∧
+    (srcCalls H0 (run H0 init demo) 5 ⟨2, 3, 5, [true]⟩).length = 7 := by
+  decide +kernel
+
+open TonVerif.Generated.HeapSrc in
+example : ∃ σ', SrcRun H0 (run H0 init demo) σ' ∧ σ'.nObj = (run H0 init demo).nObj + 1 := by
+  have hs : (run H0 init demo).has 4 .slice = true := by decide +kernel
+  have hb : (run H0 init demo).has 4 .builder = false := by decide +kernel
+  refine ⟨(Py.Heap.resultBits (run H0 init demo) (Slice_load_bits H0 (run H0 init demo) 4 2)).1,
+    .src (run H0 init demo) 4 ⟨0, 2, 0, []⟩
+      (Op.dropBits 4 2 true, Py.Heap.resultBits (run H0 init demo) (Slice_load_bits H0 (run H0 init demo) 4 2)) _ ?_ (.done _), ?_⟩
+  · simp [srcCalls, srcBits, hs, hb]
+  · decide +kernel
+
+/-! ### `Cell(bits, refs)`: the constructor's heap-touching helper regenerated (partial source tie of `cellCtor`) -/
+
+open TonVerif.Generated.HeapSrc TonVerif.Proofs.SrcHeap in
+/-- PARTIAL.  Full statement (not proved from source): the whole of `Cell.__init__`, regenerated, equals the model step `cellCtor ub ur kind`.
+Proved: (model side) a successful `cellCtor` yields a cell whose `.bits` / `.refs` ARE the caller's two containers and changes no container;
+(source side) `Cell.get_data_bytes` - regenerated from boc/cell.py; the only method `__init__` calls that touches a bit array (once per
+hash level and once for `_data_bytes`) - run on that new cell PADS A COPY: every existing bit container (so the caller's array the cell
+points to), every list and every object record is left as it was; it only allocates one scratch array.  That `__init__` stores the two
+pointers it is given is checked on the source text by the translator (heapsrc.program). -/
+theorem c08_src_ctor_step_partial (H : Bytes → Bytes) (σ σ' : State) (ub ur c : Nat) (kind : Int)
+    (hstep : step H σ (.cellCtor ub ur kind) = (σ', .obj c)) :
+    ((σ'.obj c).bitsId = (σ.obj ub).bitsId ∧ (σ'.obj c).refsId = (σ.obj ur).refsId ∧ σ'.bitBuf = σ.bitBuf ∧ σ'.refBuf = σ.refBuf) ∧
+    ∃ σ'' v, Cell_get_data_bytes H σ' c = some (σ'', v) ∧ (∀ j, j < σ'.nBit → σ''.bitBuf j = σ'.bitBuf j) ∧
+      σ''.refBuf = σ'.refBuf ∧ σ''.obj = σ'.obj ∧ σ''.nObj = σ'.nObj := by
+  constructor
+  · simp only [step] at hstep
+    split at hstep
+    · cases hm : mkCellRec H σ (σ.obj ub).bitsId (σ.obj ur).refsId kind (σ.bitBuf (σ.obj ub).bitsId) (σ.refBuf (σ.obj ur).refsId) with
+      | none => simp [hm] at hstep
+      | some rec =>
+        simp only [hm, Prod.mk.injEq, Out.obj.injEq] at hstep
+        obtain ⟨rfl, rfl⟩ := hstep
+        simp only [mkCellRec, Option.map_eq_some_iff] at hm
+        obtain ⟨info, _, rfl⟩ := hm
+        simp [State.push]
+    · simp at hstep
+  · obtain ⟨σ'', v, h1, h2, h3, h4, h5, _⟩ := Cell_get_data_bytes_frame H σ' c
+    exact ⟨σ'', v, h1, h2, h3, h4, h5⟩
+
+open TonVerif.Generated.HeapSrc in
+/-- non-vacuity: in `demo`, cell 2 was built by `Cell(array 0, list 1)`; the regenerated `get_data_bytes` on it returns `10110` padded to
+`0xB4`, allocates one array, and the cell still points at the caller's array, which still holds `10110`. -/
+example :
+    (Cell_get_data_bytes H0 (run H0 init demo) 2).map (fun r => (r.2, r.1.nBit == (run H0 init demo).nBit + 1, r.1.bitsOf 2,
+        (r.1.obj 2).bitsId == (r.1.obj 0).bitsId)) = some ([0xB4], true, [true, false, true, true, false], true) := by
+  decide +kernel
+
 end TonVerif.Properties.C08
